@@ -10,8 +10,8 @@ Conventions
 * `float("inf")` (absent distance limit / absent time window) is `none : Option Int`; comparisons
   against it follow IEEE (`x < inf`, `x <= inf` true; `x > inf`, `x >= inf` false for finite `x`);
 * `D a b` is the Euclidean distance the code computes from coordinates, `T a b` the travel time
-  `D a b / speed` (the harness supplies both exactly; `speed = 1` iff `T = D`).  The mask and `_step`
-  use `T` for the clock, the checker's replay uses `D` (it ignores `speed`) — mirrored as written.
+  `D a b / speed` (the harness supplies both exactly; `speed = 1` iff `T = D`).  Lengths use `D`, clocks
+  (mask, `_step`, and the checker's replay and static assert) use `T`.
 No Mathlib.
 -/
 import Rl4co.Core.Basic
@@ -130,40 +130,40 @@ def checkStatic (i : Inst) : Bool :=
   (List.range (i.n + 1)).all (fun k =>
     decide (0 ≤ i.early k) && geZeroInf (i.late k) && decide (0 ≤ i.service k)
     && cmpInf .lt (i.early k) (i.late k)
-    && cmpInf .le (i.early k + i.D k 0 + i.service k) (i.late 0))
+    && cmpInf .le (i.early k + i.T k 0 + i.service k) (i.late 0))
 
 /-- the replay loop over the actions: route length (reset at the depot, the leg into the depot not
-counted for open routes) and clock (`dist` is NOT divided by `speed`; the depot deadline is tested for
-open routes as well) -/
+counted for open routes) and clock (`dist / speed`; the depot deadline is tested for open routes as well) -/
 def checkReplay (i : Inst) : Nat → Int → Int → List Nat → Bool
   | _, _, _, [] => true
   | cur, t, len, a :: as =>
     let dist := i.D cur a
     let len1 := len + (if i.openR && a == 0 then 0 else dist)
-    let t1 := max (t + dist) (i.early a)
+    let t1 := max (t + i.T cur a) (i.early a)
     cmpInf Params.mtvrpCheckLimitCmp len1 i.limit
     && cmpInf Params.mtvrpCheckTwCmp t1 (i.late a)
     && checkReplay i a (if a = 0 then 0 else t1 + i.service a) (if a = 0 then 0 else len1) as
 
-/-- `_check_c1(feature)`; `caps` are the capacities the running load is compared with: the code
-compares `used_cap : [B]` with `vehicle_capacity : [B, 1]`, i.e. with the capacity of EVERY batch row -/
-def checkC1 (caps : List Int) (dem : Nat → Int) : Int → List Nat → Bool
+/-- `_check_c1(feature)` on one row: running load (reset at the depot) against the row's own capacity
+(`used_cap : [B]` vs `vehicle_capacity.squeeze(-1) : [B]`, element-wise) -/
+def checkC1 (cap : Int) (dem : Nat → Int) : Int → List Nat → Bool
   | _, [] => true
   | used, a :: as =>
     let u := (if a ≠ 0 then used else 0) + dem a
-    caps.all (fun c => Params.mtvrpCheckCapCmp.eval u c) && checkC1 caps dem u as
+    Params.mtvrpCheckCapCmp.eval u cap && checkC1 cap dem u as
 
-/-- the checker on one row, the running loads being compared with all capacities in `caps` -/
-def checkWith (caps : List Int) (i : Inst) (as : List Nat) : Bool :=
+/-- the checker on one row, the running loads being compared with the capacity `cap` -/
+def checkWith (cap : Int) (i : Inst) (as : List Nat) : Bool :=
   sortedTest i.n as && checkStatic i && checkReplay i 0 0 0 as
-  && checkC1 caps i.dL 0 as && checkC1 caps i.dB 0 as
+  && checkC1 cap i.dL 0 as && checkC1 cap i.dB 0 as
 
 /-- `check_solution_validity` on a batch of one row (True = no assertion raised) -/
-def check (i : Inst) (as : List Nat) : Bool := checkWith [i.cap] i as
+def check (i : Inst) (as : List Nat) : Bool := checkWith i.cap i as
 
-/-- `check_solution_validity` on a batch (every assert is `.all()` over the batch) -/
+/-- `check_solution_validity` on a batch (every assert is `.all()` over the batch): row `r` is paired
+with entry `r` of the capacity column -/
 def checkBatch (rows : List (Inst × List Nat)) : Bool :=
-  rows.all (fun r => checkWith (rows.map (fun r' => r'.1.cap)) r.1 r.2)
+  (List.zipWith (fun r c => checkWith c r.1 r.2) rows (rows.map (fun r' => r'.1.cap))).all id
 
 end Rl4co.Mtvrp
 
@@ -171,11 +171,11 @@ end Rl4co.Mtvrp
 every instance it uses) -/
 namespace Rl4co.Mtvrp
 
-/-- customer `j` can be served on its own by a fresh vehicle standing at the depot — stated with the
-strict deadline comparisons the mask uses -/
+/-- customer `j` can be served on its own by a fresh vehicle standing at the depot (deadlines may be met
+with equality, as in the problem statement) -/
 def servable (i : Inst) (j : Nat) : Bool :=
-  cmpInf .lt (i.T 0 j) (i.late j)
-  && cmpInf .lt (if i.openR then 0 else max (i.T 0 j) (i.early j) + i.service j + i.T j 0) (i.late 0)
+  cmpInf .le (i.T 0 j) (i.late j)
+  && cmpInf .le (if i.openR then 0 else max (i.T 0 j) (i.early j) + i.service j + i.T j 0) (i.late 0)
   && ((decide (0 < i.dL j) && decide (i.dL j ≤ i.cap)) || (decide (0 < i.dB j) && decide (i.dB j ≤ i.cap)))
   && cmpInf .le (i.D 0 j + (if i.openR then 0 else i.D j 0)) i.limit
 
